@@ -29,6 +29,7 @@ DEFAULT = dict(
     p_plain_build=0.15, p_swap_groups=0.0, p_fail_after_nested=0.0,
     p_switch_root=0.3, p_anc_target=0.0, p_stepargs=0.0, p_chain=0.0,
     p_retry=0.0, p_cache_in_output_dir=0.0, p_cache_target=0.02,
+    p_stepcmp=0.0,
     p_plain_bf=0.1,
 )
 
@@ -209,6 +210,9 @@ class Gen:
         st = ['q', kind, rel]
         if kind in ('read_text', 'read_binary', 'declare_read'):
             st.append('HASH' if self.chance('p_hash') else 'METADATA')
+            if self.chance('p_stepcmp'):
+                st[-1] = {'__step__': rng.choice([['HASH', 'METADATA'],
+                                                  ['METADATA', 'HASH']])}
         if self.chance('p_q_spelling'):
             if len(st) == 3:
                 st.append('METADATA')
@@ -253,12 +257,19 @@ class Gen:
                     rel = self.cur_cache_rel + rng.choice(['', '/x'])
                 args, kwargs = self.small_args()
                 cmp = 'HASH' if self.chance('p_hash') else 'METADATA'
+                if self.chance('p_stepcmp'):
+                    # the comparison mode of this call site changes from
+                    # build to build
+                    cmp = {'__step__': rng.choice([
+                        ['HASH', 'METADATA'], ['METADATA', 'HASH'],
+                        ['HASH', 'METADATA', 'METADATA'],
+                        ['METADATA', 'HASH', 'HASH']])}
                 st = ['bf', rel, fid, args, kwargs, cmp,
                       self.chance('p_catch')]
                 if self.chance('p_spelling'):
                     st.append(rng.choice(
                         ['bytes', 'pathlike', 'redundant', 'dotdot']))
-                elif cmp == 'METADATA' and self.chance('p_plain_bf'):
+                elif cmp == 'METADATA' and self.chance('p_plain_bf'):  # noqa
                     st.append('plain')      # FileBuilder.build_file
                 body.append(st)
                 ctx['calls'].append(st)
